@@ -438,6 +438,12 @@ class Parser:
             if self.peek()[1] in (";", "}"):
                 return ("return", None)
             return ("return", self.expr())
+        if k == "op" and v in ("..", "..="):
+            self.eat()
+            rhs = None
+            if self.peek()[1] not in ("{", ")", "]", ";", ","):
+                rhs = self.expr(nostruct, 1)
+            return ("range", v, None, rhs)
         if v in ("break", "continue"):
             raise Untranslatable(f"`{v}` is not in the fragment")
         if v in ("|", "||", "move"):
@@ -761,15 +767,18 @@ class Emitter:
     def ret(self, text):
         return f"some ({text})" if self.has_loop else text
 
-    def stmts(self, sts, k, scope=None):
-        """translate a statement list followed by continuation k (None = the list's value is the result)"""
+    def stmts(self, sts, k, scope=None, kv=None):
+        """translate a statement list followed by continuation k (None = the list's value is the result);
+        kv (value continuation), when given, receives the text of the list's tail value instead"""
         scope = list(scope or [])
         if not sts:
+            if kv is not None:
+                return kv("()", scope)
             if k is None:
                 return "()"
             return k(scope)
         s, rest = sts[0], sts[1:]
-        cont = lambda sc: self.stmts(rest, k, sc)   # noqa: E731
+        cont = lambda sc: self.stmts(rest, k, sc, kv)   # noqa: E731
         kind = s[0]
         if kind == "empty":
             return cont(scope)
@@ -782,6 +791,10 @@ class Emitter:
             names = self.pat_names(pat)
             if init[0] in ("if", "match", "iflet", "block") and self.diverges(init):
                 raise Untranslatable("diverging initialiser")
+            if init[0] in ("if", "match", "iflet", "block") and self.needs_cps(init):
+                ptxt = self.pat(pat)
+                return self.stmts([("expr", init, False)], None, scope,
+                                  kv=lambda v, sc: f"let {ptxt} := {v}\n{cont(sc + names)}")
             val = self.ex(init)
             return f"let {self.pat(pat)} := {val}\n{cont(scope + names)}"
         if kind == "assign":
@@ -807,14 +820,18 @@ class Emitter:
                 raise Untranslatable("macro " + e[1])
             if e[0] == "return":
                 return self.ret(self.ex(e[1])) if e[1] is not None else self.ret("()")
+            tail_kv = kv if (kv is not None and not rest and not semi) else None
             if e[0] == "if":
-                th = self.stmts(e[2][1], (lambda sc: cont(sc)) if (rest or k or semi) else None, scope)
+                sub_k = (lambda sc: cont(sc)) if (rest or k or semi) else None
+                if tail_kv:
+                    sub_k = None
+                th = self.stmts(e[2][1], sub_k, scope, tail_kv)
                 if e[3] is None:
                     el = cont(scope)
                 elif e[3][0] == "block":
-                    el = self.stmts(e[3][1], (lambda sc: cont(sc)) if (rest or k or semi) else None, scope)
+                    el = self.stmts(e[3][1], sub_k, scope, tail_kv)
                 else:  # else if
-                    el = self.stmts([("expr", e[3], semi)] , (lambda sc: cont(sc)) if (rest or k or semi) else None, scope)
+                    el = self.stmts([("expr", e[3], semi)], sub_k, scope, tail_kv)
                 return f"if {self.cond(e[1])} then\n{indent(th)}\nelse\n{indent(el)}"
             if e[0] == "iflet":
                 th = self.stmts(e[3][1], (lambda sc: cont(sc)) if (rest or k or semi) else None, scope + self.pat_names(e[1]))
@@ -829,9 +846,13 @@ class Emitter:
                     return "\n" + indent(self.stmts(b, (lambda sc: cont(sc)) if (rest or k or semi) else None, scope))
                 return self.match_value(e, body_fn).replace(" | ", "\n| ")
             if e[0] == "block":
-                return self.stmts(e[1] + rest, k, scope)
+                if tail_kv:
+                    return self.stmts(e[1], None, scope, tail_kv)
+                return self.stmts(e[1] + rest, k, scope, kv)
             if not semi and not rest:
                 # tail expression of the list
+                if kv is not None:
+                    return kv(self.ex(e), scope)
                 if k is None:
                     return self.ret(self.ex(e))
                 # value discarded? (a tail expression inside a loop body / branch followed by more code)
@@ -888,6 +909,29 @@ class Emitter:
             f"  | fuel + 1 =>\n"
             f"    if {ctext} then\n{indent(body_text, 6)}\n    else\n{indent(exit_text, 6)}\n")
         return f"{lname} {callargs} ({self.cfg.get('fuel', 'fuel')})"
+
+    def needs_cps(self, e):
+        """does this block-like expression contain assignments or effect statements (then its
+        branches are translated with the continuation duplicated into them)"""
+        k = e[0]
+        if k == "block":
+            for st in e[1]:
+                if st[0] == "assign":
+                    return True
+                if st[0] == "expr" and st[2] and st[1][0] in ("mcall", "call", "macro"):
+                    return True
+                if st[0] == "expr" and self.needs_cps(st[1]):
+                    return True
+                if st[0] == "let" and st[2] is not None and self.needs_cps(st[2]):
+                    return True
+            return False
+        if k == "if":
+            return self.needs_cps(e[2]) or (e[3] is not None and self.needs_cps(e[3]))
+        if k == "iflet":
+            return self.needs_cps(e[3]) or (e[4] is not None and self.needs_cps(e[4]))
+        if k == "match":
+            return any(self.needs_cps(b) for _, _, b in e[2])
+        return False
 
     def diverges(self, e):
         k = e[0]
@@ -974,7 +1018,9 @@ def translate(name, body_text, cfg):
     em.has_loop = contains_loop(ast)
     params = cfg["params"]
     sig = " ".join(f"({p} : {t})" for p, t in params)
-    body = em.stmts(ast[1], None, [])
+    body = em.stmts(ast[1], None, list(cfg.get("prelude_scope", [])))
+    if cfg.get("prelude"):
+        body = cfg["prelude"] + "\n" + body
     ret = cfg["ret"]
     if em.has_loop:
         fuel_sig = "" if (any(p == "fuel" for p, _ in params) or "fuel" in cfg) else " (fuel : Nat)"
